@@ -422,16 +422,16 @@ class SMPose(SMUserList):
             # SO(2) or SE(2)
             if len(s) > 1:
                 assert len(self) == 1, 'if len(s) > 1, len(X) must == 1'
-                return self.__class__([base.trinterp2(start, self.A, s=_s) for _s in s])
+                return self.__class__([base.trinterp2(start, self.A, s=_s) for _s in s], check=False)
             else:
-                return self.__class__([base.trinterp2(start, x, s=s[0]) for x in self.data])
+                return self.__class__([base.trinterp2(start, x, s=s[0]) for x in self.data], check=False)
         elif self.N == 3:
             # SO(3) or SE(3)
             if len(s) > 1:
                 assert len(self) == 1, 'if len(s) > 1, len(X) must == 1'
-                return self.__class__([base.trinterp(start, self.A, s=_s) for _s in s])
+                return self.__class__([base.trinterp(start, self.A, s=_s) for _s in s], check=False)
             else:
-                return self.__class__([base.trinterp(start, x, s=s[0]) for x in self.data])
+                return self.__class__([base.trinterp(start, x, s=s[0]) for x in self.data], check=False)
 
     def norm(self):
         """
